@@ -44,9 +44,15 @@ CHECKS = {
    technique="same TLA+ two-endpoint model with Restart actions; clauses T1 (restored counters), T2 (no MsgSeqNum reused for a different message, over the whole wire history), T4 (no ResendRequest when nothing was lost) plus the C07 clauses after the restart; file-backed journals reopened by a fresh Journaler; TLC evaluates recorded steps",
    text="Graceful restarts of either endpoint at every quiescent point of the bounded model and in random walks (file journals, new connection object over the reopened file), followed by reconnect, Logon and settle; TLC self-check: with the stored-inbound-lag flag the model violates T1. Kill points inside a send / inside inbound processing are covered at the journal level by C08 (every statement boundary) and by the journal-before-write order checked in C05/C14; explicit mid-handler kills of a whole endpoint are listed as future work in DESIGN.md.",
    design_ref="5/C09", note="Restart = tasks cancelled, journal object dropped, new Journaler on the same file, new connection object. " + COMMON_NOTE),
+ "C12": dict(engine="Heartbeat",
+   technique="TLA+ model of the watchdog in discrete virtual time (spec/Heartbeat.tla, unit 1/4 s, wake-up phase as a constant) model-checked by TLC against clauses W1a-W5 (spec/HeartbeatProps.tla); every behaviour of the bounded model replayed on the real heartbeat_timer_task + reader under a virtual clock; recorded steps evaluated by TLC (spec/HeartbeatEval.tla)",
+   text="All arrival patterns of up to 3-4 inbound frames (valid Heartbeat, right / wrong / missing TestReqID, TestRequest, out-of-sequence frames, application TestRequest attempts) at quarter-second granularity over a horizon of 4H+4 s for H in 1..3 and two wake-up phases are checked on the model and replayed on the real task; random patterns (silence, periodic below/at/above the interval, bursts, answers delayed 0..2 intervals) for H up to 30 s on the real code.",
+   design_ref="5/C12", note="Tolerances: TestRequest in [H-1, H+1] s of silence, disconnect of a silent peer by 3H+3 s, a live peer = valid traffic with no silence >= H-1 s or every TestRequest answered in sequence within 2H-2 s (between the bounds both outcomes are accepted). An application that re-sends the registered TestReqID itself is not prevented (residual). " + COMMON_NOTE),
 }
 
 ENGINES = [
+ dict(name="Heartbeat", path="spec/Heartbeat.tla spec/HeartbeatProps.tla spec/HeartbeatEval.tla harness/props/c12.py",
+      serves_properties=["C12"], kind_free_text="TLA+ model of the heartbeat watchdog in discrete virtual time + TLC + replay on the real timer task"),
  dict(name="Net", path="spec/Net.tla spec/NetEval.tla spec/Endpoint.tla harness/netrun.py harness/netcheck.py",
       serves_properties=["C07", "C09"], kind_free_text="TLA+ model of two endpoints over a lossy link with restarts + TLC + replay on two real endpoints + TLC evaluation of recorded steps"),
  dict(name="Session1", path="spec/Endpoint.tla spec/Session1.tla spec/Session1MC.tla spec/SessionProps.tla spec/SessionEval.tla harness/net.py harness/session.py harness/sessrun.py",
